@@ -89,6 +89,7 @@ CASES = {
         {'fam': 'lookup', 'paras': 2, 'patterns': 2, 'plen': 1, 'pathlen': 1, 'multi_first_only': True, 'seps': 2},
         {'fam': 'lookup3', 'paras': 3, 'patterns': 1, 'plen': 1, 'pathlen': 1},
         {'fam': 'lookup', 'paras': 2, 'patterns': 1, 'plen': 1, 'pathlen': 3, 'tag': 'longpath'},
+        {'fam': 'lookup', 'paras': 2, 'patterns': 2, 'plen': 1, 'pathlen': 2, 'multi_first_only': True, 'seps': 1, 'tag': 'multi-longpath'},
         {'fam': 'license'},
         {'fam': 'gate'},
     ],
@@ -96,6 +97,7 @@ CASES = {
         {'fam': 'glob', 'plen': 4, 'pathlen': 4},
         {'fam': 'lookup', 'paras': 2, 'patterns': 2, 'plen': 2, 'pathlen': 2},
         {'fam': 'lookup3', 'paras': 3, 'patterns': 2, 'plen': 1, 'pathlen': 2},
+        {'fam': 'lookup', 'paras': 2, 'patterns': 3, 'plen': 1, 'pathlen': 2, 'multi_first_only': True, 'seps': 1, 'tag': 'multi3-longpath'},
         {'fam': 'license'},
         {'fam': 'gate'},
     ],
